@@ -21,6 +21,7 @@ import (
 	"strconv"
 	"strings"
 	"sync"
+	"syscall"
 	"time"
 
 	"kgsim/meta"
@@ -74,7 +75,9 @@ type findingsFile struct {
 }
 
 var (
-	verifDir string
+	onlyIdx   = -1
+	watchdogS = 0
+	verifDir  string
 	repoDir  = "/repo"
 	workers  = runtime.NumCPU()
 )
@@ -91,6 +94,8 @@ func main() {
 	onlyBatch := flag.String("batch", "", "only batches whose profile contains this string")
 	noShrink := flag.Bool("no-shrink", false, "do not minimise")
 	buildOnly := flag.Bool("build-only", false, "build the worker and exit")
+	flag.IntVar(&onlyIdx, "idx", -1, "debug: run only this run index of the selected batch, print its trace")
+	flag.IntVar(&watchdogS, "watchdog", 0, "override the per-process watchdog (seconds)")
 	flag.Usage = func() {
 		fmt.Fprintf(os.Stderr, "usage: kgcheck [flags] <property-id>\n")
 		flag.PrintDefaults()
@@ -99,7 +104,7 @@ func main() {
 	var id string
 	args := os.Args[1:]
 	var rest []string
-	valueFlag := map[string]bool{"tier": true, "replay": true, "runs": true, "batch": true}
+	valueFlag := map[string]bool{"tier": true, "replay": true, "runs": true, "batch": true, "idx": true, "watchdog": true}
 	for i := 0; i < len(args); i++ {
 		if !strings.HasPrefix(args[i], "-") && id == "" {
 			id = args[i]
@@ -216,8 +221,13 @@ func runProc(worker string, sp spec, timeout time.Duration) ([]sim.Result, strin
 	case werr = <-done:
 	case <-time.After(timeout):
 		timedOut = true
-		_ = cmd.Process.Kill()
-		werr = <-done
+		_ = cmd.Process.Signal(syscall.SIGQUIT) // goroutine dump for the log
+		select {
+		case werr = <-done:
+		case <-time.After(3 * time.Second):
+			_ = cmd.Process.Kill()
+			werr = <-done
+		}
 	}
 	var res []sim.Result
 	if f, err := os.Open(out); err == nil {
@@ -279,9 +289,17 @@ func runBatch(bi *buildInfo, chk *meta.Check, b meta.Batch, n int, batchSeed uin
 	for i := 0; i < n; i += per {
 		sp := spec{Property: chk.ID, World: b.World, Profile: b.Profile, Opts: opts}
 		for j := i; j < i+per && j < n; j++ {
+			if onlyIdx >= 0 && j != onlyIdx {
+				continue
+			}
 			sp.Runs = append(sp.Runs, runSpec{Idx: j, Seed: tape.Mix(batchSeed, uint64(j))})
 		}
-		jobs = append(jobs, job{sp})
+		if onlyIdx >= 0 {
+			sp.KeepTrace = true
+		}
+		if len(sp.Runs) > 0 {
+			jobs = append(jobs, job{sp})
+		}
 	}
 	var mu sync.Mutex
 	var wg sync.WaitGroup
@@ -292,8 +310,23 @@ func runBatch(bi *buildInfo, chk *meta.Check, b meta.Batch, n int, batchSeed uin
 			defer wg.Done()
 			for jb := range ch {
 				to := time.Duration(len(jb.sp.Runs))*20*time.Second + 60*time.Second
+				if watchdogS > 0 {
+					to = time.Duration(watchdogS) * time.Second
+				}
 				res, stderr, err := runProc(bi.Worker, jb.sp, to)
 				mu.Lock()
+				if onlyIdx >= 0 {
+					for _, r := range res {
+						for _, l := range r.Trace {
+							fmt.Println("  " + l)
+						}
+						rb, _ := json.Marshal(r.Violation)
+						fmt.Printf("idx=%d seed=%d violation=%s inconclusive=%q crashed=%q\n", r.Idx, r.Seed, rb, r.Inconclusive, r.Crashed)
+					}
+					if err != nil {
+						fmt.Println(stderr)
+					}
+				}
 				bo.results = append(bo.results, res...)
 				if err != nil {
 					got := map[int]bool{}
@@ -301,7 +334,7 @@ func runBatch(bi *buildInfo, chk *meta.Check, b meta.Batch, n int, batchSeed uin
 						got[r.Idx] = true
 					}
 					if strings.HasPrefix(err.Error(), "watchdog") {
-						bo.hung = append(bo.hung, fmt.Sprintf("%s/%s idx=%d..: %v\n%s", b.World, b.Profile, jb.sp.Runs[0].Idx, err, tail(stderr, 30)))
+						bo.hung = append(bo.hung, fmt.Sprintf("%s/%s idx=%d..: %v\n%s", b.World, b.Profile, jb.sp.Runs[0].Idx, err, tail(stderr, 12)))
 					} else {
 						// the first run without a result is the one that killed the process
 						for _, rs := range jb.sp.Runs {
